@@ -12,7 +12,7 @@ use crate::{
 
 pub fn run(ctx: &mut Ctx) {
     let scratch = Scratch::new();
-    for case in ctx.cases(300, 50_000) {
+    for case in ctx.cases(3_000, 200_000) {
         let mut rng = ctx.rng(case);
         let file = rng.chance(1, 5);
         let backend = if file { Backend::File } else { Backend::Memory };
